@@ -82,6 +82,7 @@ AGENT_SETS = {
     "h1": ["agent_0"],
     "h2": ["agent_0", "agent_1"],
     "h3": ["agent_0", "agent_1", "agent_2"],
+    "h2r": ["agent_1", "agent_0"],          # declared order differs from the sorted order of the ids (seeded change C17-m3)
     "g11": ["speaker_0", "listener_0"],
     "g21": ["speaker_0", "listener_0", "speaker_1"],
 }
